@@ -876,7 +876,7 @@ impl Scenario for C20Macro {
             let set = gen::generate(&mut w, &cfg);
             let m = &set.modules[0];
             let body: String = m.assigns.iter().map(|a| format!("{}\n", a.text)).collect();
-            let lit = match w.below(13) {
+            let lit = match w.below(15) {
                 // bare snippet: the macro wraps it
                 0..=4 => body,
                 // bare snippets that merely MENTION header keywords (comments, identifiers):
@@ -884,6 +884,9 @@ impl Scenario for C20Macro {
                 10 => format!("-- the DEFINITIONS below follow the END of clause 7 --\n{body}-- END OF DEFINITIONS\n"),
                 11 => format!("Definitions-List ::= SEQUENCE OF INTEGER\nEND-Marker ::= NULL\n{body}"),
                 12 => format!("BEGINNER-Level ::= INTEGER (0..7)\n{body}"),
+                // layout inside the literal: CRLF line ends, tabs, leading / trailing blank lines
+                13 => format!("\r\n\t{}\r\n\r\n", body.replace('\n', "\r\n")),
+                14 => format!("\n\n   {body}   \n\t\n"),
                 // a whole module (contains BEGIN): compiled as is, with its own TAGS default
                 5..=7 => m.text(&set.modules),
                 // malformed bare snippet / malformed module: the macro must fail, as the library does
